@@ -1866,7 +1866,11 @@ class Scheduler:
         # Cached jobs won't have used any resources.
         if not job.was_cached:
             self._release_job_resources(job)
-            self._check_jobs_pending_limits()
+
+        # Wake up jobs waiting for limits. This is also needed after a cached job: a waiting
+        # job that was nominated to start may have turned out to be cached or collapsed into
+        # an equivalent job, leaving its nomination unused.
+        self._check_jobs_pending_limits()
 
         assert job.task
         assert job.eval_hash
@@ -2099,7 +2103,9 @@ class Scheduler:
             # Cached jobs won't have used any resources.
             if not job.was_cached:
                 self._release_job_resources(job)
-                self._check_jobs_pending_limits()
+
+            # Wake up jobs waiting for limits, also after cached jobs (see _done_job_main_thread).
+            self._check_jobs_pending_limits()
 
             if self.use_task_traceback:
                 self._set_task_traceback(job, error, error_traceback=error_traceback)
